@@ -615,3 +615,292 @@ def report_semantics(F, R, rule, tier, floor):
         R.obligations.append((rule, text, False, msg))
     R.floor(rule, "texts taken from the parser to the program", n, floor)
     R.floor(rule, "texts whose program was compared with the reference language", decided, floor // 3)
+
+
+# ---------------------------------------------------------------------------------------------------------------------
+# C06.text: the rule checker on parsed texts: two groups around a middle, groups in groups
+
+RULE_GROUPS = ["{a/}", "{/a}", "{a/,b}", "{a,/b}", "<a/:2>", "</a:2>", "<a/:1,>", "</a:1,>", "{a}", "<a:2>", "{a*,b}", "{*a,b}"]
+
+
+def rule_texts():
+    out = set()
+    for g1 in RULE_GROUPS:
+        for g2 in RULE_GROUPS:
+            for mid in ("", "x", "/", "*"):
+                for pre in ("", "x", "x/"):
+                    for post in ("", "y", "/y"):
+                        out.add(pre + g1 + mid + g2 + post)
+    for g in RULE_GROUPS:
+        for w in ("{%s,b}", "{b,%s}", "<%s:2>", "<%s:1,>", "<%s>", "<%sc/:2>", "<%sc:2>", "</c%s:2>", "<%s/:1,>", "{%sc,d}", "{c%s,d}"):
+            for pre in ("", "x", "x/"):
+                for post in ("", "y", "/y"):
+                    out.add(pre + (w % g) + post)
+    return sorted(t for t in out if parseref.read(t) not in (parseref.REJECT, parseref.DONTCARE))
+
+
+_RG = None
+
+
+def _rjob(text):
+    from . import exhaust
+    F, J, parse_item, err_item = _RG
+    stubs = N.stubs()
+    if err_item is not None:
+        stubs[err_item.qname] = lambda I, a, fn, e: Adt("parse-error", "ParseError", {})
+    I = Interp(F, stubs, fuel=2000000)
+    try:
+        cases = I.explore(lambda: I.call_item(parse_item, [text], inst=False))
+        if I.tops or len(cases) != 1:
+            return {"text": text, "status": "unanalysable", "what": "the parser: %s" % (I.tops[:1] or len(cases),)}
+        r = strip(cases[0].result)
+        if not (isinstance(r, Adt) and r.variant == "Ok"):
+            return {"text": text, "status": "unanalysable", "what": "the parser rejects a text of the documented syntax"}
+        tz = strip(r.fields["0"])
+        toks = list(_list(strip(strip(strip(tz.fields["token"]).fields["topology"]).fields["0"]).fields["0"]))
+        r = exhaust.judge_rules(J, text, toks)
+        if r.get("verdict") == "accepted":
+            r["has_root"] = J.has_root(J.tree(toks))
+        return r
+    except RecursionError:
+        return {"text": text, "status": "unanalysable", "what": "recursion limit"}
+    except (ValueError, KeyError, AttributeError) as ex:
+        return {"text": text, "status": "unanalysable", "what": "parse result shape: %s" % ex}
+
+
+def judged_rules(F):
+    from . import exhaust
+    texts = rule_texts()
+    h = hashlib.sha256(_sources_hash().encode())
+    base = os.path.dirname(os.path.dirname(os.path.abspath(__file__)))
+    for rel in ("rules/exhaust.py", "rules/tokens.py"):
+        with open(os.path.join(base, rel), "rb") as f:
+            h.update(f.read())
+    key = "rules-%s-%s" % (os.path.basename(F.path).replace(".json", ""), h.hexdigest()[:16])
+    os.makedirs(CACHE, exist_ok=True)
+    cp = os.path.join(CACHE, key + ".json")
+    if os.path.exists(cp) and os.environ.get("VERIF_NO_CACHE") != "1":
+        try:
+            with open(cp) as f:
+                d = json.load(f)
+            if [r["text"] for r in d] == texts:
+                return d
+        except Exception:
+            pass
+    parse_item = F.find("token::parse::parse", optional=True)
+    if parse_item is None:
+        return None
+    err_item = None
+    for cand in F.items.values():
+        if cand.qname.startswith("token::parse::ParseError") and cand.name == "new":
+            err_item = cand
+    global _RG
+    _RG = (F, exhaust.Judge(F), parse_item, err_item)
+    sys.setrecursionlimit(20000)
+    import multiprocessing as mp
+    with mp.get_context("fork").Pool(min(16, os.cpu_count() or 4)) as pool:
+        d = pool.map(_rjob, texts, chunksize=8)
+    tmp = cp + ".%d.tmp" % os.getpid()
+    with open(tmp, "w") as f:
+        json.dump(d, f)
+    os.replace(tmp, cp)
+    return d
+
+
+RULE_FAMILY_CEILINGS = {"rooted-through-a-nested-group": 24, "wrap-around-through-a-nested-group": 40}
+
+
+def rule_family(r):
+    """Known deviation families of the rule checker (KNOWN_FINDINGS.txt), by what the documented rules say."""
+    if r.get("verdict") == "accepted" and "can root the expression" in (r.get("why") or ""):
+        return "rooted-through-a-nested-group"
+    if r.get("verdict") == "accepted" and "two component boundaries become adjacent" in (r.get("why") or ""):
+        return "wrap-around-through-a-nested-group"
+    return None
+
+
+def report_rules(F, R, rule):
+    """C06.text: the rule checker (its four rule functions, THIR) on texts taken through the parser (THIR, nom model):
+    two groups around nothing / a literal / a separator / a wildcard with every combination of leading and trailing
+    separators, and groups inside groups (~6 400 texts), against the documented rules computed by expansion
+    (exhaust.documented_verdict), both directions."""
+    d = judged_rules(F)
+    if d is None:
+        R.anchor_missing(rule, "token::parse::parse")
+        return
+    n = 0
+    fam = {}
+    bad = []
+    for r in d:
+        n += 1
+        st = r.get("status")
+        if st == "sound":
+            R.ok(rule, "`%s`" % r["text"], r.get("verdict", ""), "src/rule.rs", sample=(n % 499 == 1))
+        elif st == "unsound":
+            f = rule_family(r)
+            if f:
+                fam.setdefault(f, []).append(r)
+            else:
+                bad.append((r["text"], "`%s` is %s by the rule checker; %s" % (r["text"], r.get("verdict"), r.get("why"))))
+        elif st == "unanalysable":
+            bad.append((r["text"], "`%s` could not be judged: %s" % (r["text"], r.get("what"))))
+    for f, lst in sorted(fam.items()):
+        lst.sort(key=lambda r: (len(r["text"]), r["text"]))
+        ex = ", ".join("`%s`" % r["text"] for r in lst[:4])
+        R.fail(rule, "group:" + f, "%d text(s) of the catalogue build although the documented rules reject them (%s), e.g. %s" % (len(lst), lst[0].get("why"), ex), "src/rule.rs")
+        for r in lst[1:]:
+            R.obligations.append((rule, "`%s`" % r["text"], False, f))
+        ceil = RULE_FAMILY_CEILINGS.get(f, 0)
+        R.check(len(lst) <= ceil, rule, "group-size:" + f, "the known family has at most %d members (it has %d)" % (ceil, len(lst)), "src/rule.rs",
+                fail_msg="the known family `%s` grew from at most %d to %d texts: a further deviation inside it, e.g. %s" % (f, ceil, len(lst), ex))
+    bad.sort(key=lambda x: (len(x[0]), x[0]))
+    for text, msg in bad[:8]:
+        R.fail(rule, "%s~%s" % (text, hashlib.sha1(text.encode()).hexdigest()[:6]), msg + (" [%d texts deviate; the shortest are reported]" % len(bad) if len(bad) > 8 else ""), "src/rule.rs")
+    for text, msg in bad[8:]:
+        R.obligations.append((rule, text, False, msg))
+    R.floor(rule, "texts judged by the rule checker and by the documented rules", n, 6000)
+
+
+def report_sometimes(F, R, rule):
+    """C12.text: on the ~3 700 texts of the C06.text catalogue that the rule checker accepts, Token::has_root never
+    answers `sometimes` (a glob is rooted or it is not)."""
+    d = judged_rules(F)
+    if d is None:
+        R.anchor_missing(rule, "token::parse::parse")
+        return
+    n = 0
+    some_ = []
+    for r in d:
+        if r.get("verdict") != "accepted" or r.get("status") == "unanalysable":
+            continue
+        n += 1
+        hr = r.get("has_root")
+        if hr is None:
+            R.fail(rule, "`%s`" % r["text"], "Token::has_root could not be evaluated on `%s`" % r["text"], "src/token/mod.rs")
+        elif hr == "Sometimes":
+            some_.append(r["text"])
+        else:
+            R.ok(rule, "`%s`" % r["text"], "has_root = %s" % hr, "src/token/mod.rs", sample=(n % 499 == 1))
+    if some_:
+        some_.sort(key=lambda t: (len(t), t))
+        R.fail(rule, "group:sometimes-through-a-nested-group", "%d buildable text(s) report has_root = sometimes, e.g. %s" % (
+            len(some_), ", ".join("`%s`" % t for t in some_[:4])), "src/token/mod.rs")
+        for t in some_[1:]:
+            R.obligations.append((rule, "`%s`" % t, False, "sometimes"))
+        R.check(len(some_) <= 24, rule, "group-size:sometimes-through-a-nested-group", "at most 24 members (%d)" % len(some_), "src/token/mod.rs",
+                fail_msg="the known family grew from at most 24 to %d texts, e.g. %s" % (len(some_), ", ".join("`%s`" % t for t in some_[:6])))
+    R.floor(rule, "buildable texts whose has_root verdict was read", n, 3500)
+
+
+# ---------------------------------------------------------------------------------------------------------------------
+# C09.text: exhaustiveness of alternations of alternations (and `any` of `any`), through the parser
+
+def exhaustive_texts():
+    import itertools
+    subs = ["a/**", "**/b", "c/**", "d", "*", "**"]
+    out = set()
+    for x, y, z, w in itertools.product(subs, repeat=4):
+        if "**" in (x, y, z, w) and (x, y, z, w).count("**") > 1:
+            continue
+        out.add("{{%s,%s},{%s,%s}}" % (x, y, z, w))
+        out.add("x/{{%s,%s},{%s,%s}}" % (x, y, z, w))
+    for x, y, z in itertools.product(subs, repeat=3):
+        out.add("{{%s,%s},%s}" % (x, y, z))
+        out.add("{%s,{%s,%s}}" % (x, y, z))
+        out.add("{{{%s,%s}},{{%s}}}" % (x, y, z))
+    return sorted(t for t in out if parseref.read(t) not in (parseref.REJECT, parseref.DONTCARE))
+
+
+_EG = None
+
+
+def _ejob(text):
+    from . import exhaust
+    F, J, parse_item, err_item = _EG
+    stubs = N.stubs()
+    if err_item is not None:
+        stubs[err_item.qname] = lambda I, a, fn, e: Adt("parse-error", "ParseError", {})
+    I = Interp(F, stubs, fuel=2000000)
+    try:
+        cases = I.explore(lambda: I.call_item(parse_item, [text], inst=False))
+        if I.tops or len(cases) != 1:
+            return {"text": text, "status": "unanalysable", "what": "the parser: %s" % (I.tops[:1] or len(cases),)}
+        r = strip(cases[0].result)
+        if not (isinstance(r, Adt) and r.variant == "Ok"):
+            return {"text": text, "status": "rejected"}
+        tz = strip(r.fields["0"])
+        toks = list(_list(strip(strip(strip(tz.fields["token"]).fields["topology"]).fields["0"]).fields["0"]))
+        return exhaust.judge_one(J, text, toks)
+    except RecursionError:
+        return {"text": text, "status": "unanalysable", "what": "recursion limit"}
+    except (ValueError, KeyError, AttributeError) as ex:
+        return {"text": text, "status": "unanalysable", "what": "parse result shape: %s" % ex}
+
+
+def report_exhaustive(F, R, rule):
+    """C09.text: alternations whose alternatives are alternations themselves (exhaustive, non-exhaustive and mixed
+    inner branches in every arrangement, bare and behind a prefix), taken through the parser: a verdict `always` of
+    Token::is_exhaustive is compared with the language of the emitted program, as C09.sound does on its catalogue."""
+    from . import exhaust
+    texts = exhaustive_texts()
+    h = hashlib.sha256(_sources_hash().encode())
+    base = os.path.dirname(os.path.dirname(os.path.abspath(__file__)))
+    for rel in ("rules/exhaust.py", "rules/tokens.py", "rx.py", "rxc.py"):
+        with open(os.path.join(base, rel), "rb") as f:
+            h.update(f.read())
+    key = "exh-%s-%s" % (os.path.basename(F.path).replace(".json", ""), h.hexdigest()[:16])
+    os.makedirs(CACHE, exist_ok=True)
+    cp = os.path.join(CACHE, key + ".json")
+    d = None
+    if os.path.exists(cp) and os.environ.get("VERIF_NO_CACHE") != "1":
+        try:
+            with open(cp) as f:
+                d = json.load(f)
+            if [r["text"] for r in d] != texts:
+                d = None
+        except Exception:
+            d = None
+    if d is None:
+        parse_item = F.find("token::parse::parse", optional=True)
+        if parse_item is None:
+            R.anchor_missing(rule, "token::parse::parse")
+            return
+        err_item = None
+        for cand in F.items.values():
+            if cand.qname.startswith("token::parse::ParseError") and cand.name == "new":
+                err_item = cand
+        global _EG
+        _EG = (F, exhaust.Judge(F), parse_item, err_item)
+        sys.setrecursionlimit(20000)
+        import multiprocessing as mp
+        with mp.get_context("fork").Pool(min(16, os.cpu_count() or 4)) as pool:
+            d = pool.map(_ejob, texts, chunksize=8)
+        tmp = cp + ".%d.tmp" % os.getpid()
+        with open(tmp, "w") as f:
+            json.dump(d, f)
+        os.replace(tmp, cp)
+    n = always = 0
+    bad = []
+    for r in d:
+        st = r.get("status")
+        if st == "rejected":
+            continue
+        n += 1
+        if st == "sound":
+            always += 1
+            R.ok(rule, "`%s`" % r["text"], "always exhaustive, and every path beneath a matched path is matched", "src/token/variance/mod.rs", sample=(always % 97 == 1))
+        elif st == "unsound":
+            always += 1
+            w = r.get("witness") or ["?", "?"]
+            bad.append((r["text"], "`%s` reports that it is always exhaustive but matches `%s` and not `%s` beneath it (program %s)" % (r["text"], w[0], w[1], r.get("pattern"))))
+        elif st == "unanalysable":
+            bad.append((r["text"], "`%s` could not be judged: %s" % (r["text"], r.get("what"))))
+        else:
+            R.ok(rule, "`%s`" % r["text"], "verdict %s (nothing demanded)" % r.get("verdict"), "src/token/variance/mod.rs", sample=False)
+    bad.sort(key=lambda x: (len(x[0]), x[0]))
+    for text, msg in bad[:8]:
+        R.fail(rule, "%s~%s" % (text, hashlib.sha1(text.encode()).hexdigest()[:6]), msg + (" [%d texts deviate; the shortest are reported]" % len(bad) if len(bad) > 8 else ""), "src/token/variance/mod.rs")
+    for text, msg in bad[8:]:
+        R.obligations.append((rule, text, False, msg))
+    R.floor(rule, "buildable nested alternations judged", n, 1000)
+    R.floor(rule, "of them with the verdict `always`", always, 50)
